@@ -65,3 +65,59 @@ package keyvaluestorage
 //@   loop 1:
 //@     invariant -1 <= rangeindex && rangeindex < len(keyValues) && rootof(keyValues) > 0 && state != nil
 //@     invariant [kept_are_writers] forall k int :: 0 <= k && k <= rangeindex && keyValues[k].KeyPeerId != "" ==> writerOK(state, keyValues[k]) && state.PermissionsAtRecord#1(keyValues[k].AclId, crypto.DecodeAccountAddress(keyValues[k].Identity)) == nil
+
+// ---------------------------------------------------------------------------------------------
+// C12: the local write path.  A value is handed to the inner store only if the own account may write
+// at the current ACL head; it is filed under (key, own device), carries that ACL head and the current
+// read-key id, its payload is the signed envelope of the ENCRYPTED value, and both the device key and
+// the account key signed exactly those stored bytes.
+//@ ghost lwStored Bool stable
+//@ ghost lwKeyPeerId Str stable
+//@ ghost lwKey Str stable
+//@ ghost lwPeerId Str stable
+//@ ghost lwAclId Str stable
+//@ ghost lwBytes Slice stable
+//@ ghost lwPeerSig Slice stable
+//@ ghost lwIdSig Slice stable
+//@ ghost lwCanWrite Bool stable
+//@ ghost lwMarshalled Slice stable
+//@ ghost lwEncrypted Slice stable
+//@ ghost lwInnerValue Slice stable
+//@ func iface innerstorage.KeyValueStorage.Set
+//@   sets lwStored = true
+//@   sets lwKeyPeerId = ite(len(arg2) > 0, arg2[0].KeyPeerId, "")
+//@   sets lwKey = ite(len(arg2) > 0, arg2[0].Key, "")
+//@   sets lwPeerId = ite(len(arg2) > 0, arg2[0].PeerId, "")
+//@   sets lwAclId = ite(len(arg2) > 0, arg2[0].AclId, "")
+//@   sets lwBytes = arg2[0].Value.Value
+//@   sets lwPeerSig = arg2[0].Value.PeerSignature
+//@   sets lwIdSig = arg2[0].Value.IdentitySignature
+//@ func (github.com/anyproto/any-sync/commonspace/object/acl/list.AclPermissions).CanWrite
+//@   modifies nothing
+//@   ensures result <==> (arg0 == 1 || arg0 == 2 || arg0 == 3)
+//@   sets lwCanWrite = result
+//@ func (*github.com/anyproto/any-sync/commonspace/object/acl/list.AclState).Permissions
+//@   modifies nothing
+//@ func (*github.com/anyproto/any-sync/commonspace/object/acl/list.AclState).Identity
+//@   modifies nothing
+//@ func (*github.com/anyproto/any-sync/commonspace/object/acl/list.AclState).CurrentReadKeyId
+//@   modifies nothing
+//@ func iface list.AclList.Head
+//@   modifies nothing
+//@   ensures result != nil
+//@ func iface crypto.SymKey.Encrypt
+//@   modifies nothing
+//@   sets lwEncrypted = result0
+//@ func (*github.com/anyproto/any-sync/commonspace/spacesyncproto.StoreKeyInner).MarshalVT
+//@   modifies nothing
+//@   sets lwMarshalled = result0
+//@   sets lwInnerValue = arg0.Value
+//@ package github.com/anyproto/any-sync/commonspace/object/keyvalue/keyvaluestorage
+//@ func (*storage).Set
+//@   requires s != nil && s.aclList != nil && s.inner != nil && s.indexer != nil && s.syncClient != nil && s.keys != nil
+//@   assumes s.aclList.AclState() != nil && s.keys.PeerKey != nil && s.keys.SignKey != nil
+//@   requires !lwStored
+//@   ensures [local_write_needs_permission] lwStored ==> lwCanWrite
+//@   ensures [filed_under_key_and_own_device] lwStored ==> lwKey == key && lwPeerId == s.keys.PeerKey.GetPublic().PeerId() && lwKeyPeerId == key + "-" + s.keys.PeerKey.GetPublic().PeerId()
+//@   ensures [stored_bytes_are_the_signed_envelope] lwStored ==> lwBytes == lwMarshalled && lwPeerSig == s.keys.PeerKey.Sign(lwMarshalled) && lwIdSig == s.keys.SignKey.Sign(lwMarshalled)
+//@   ensures [envelope_carries_ciphertext] lwStored ==> lwInnerValue == lwEncrypted
